@@ -289,6 +289,16 @@ def rule_r4(chk, p, t):
                 a0, a1 = inline_locals(m, sl.elts[0]), inline_locals(m, sl.elts[1])
                 if isinstance(a0, ast.Call) and call_name(a0) == "argmax" and f"{rw}" in unparse(a0) and "axis=0" in unparse(a0) and isinstance(a1, ast.Call) and call_name(a1) == "arange" and unparse(s.value) == "True":
                     ok = True
+                # per-column argmax collected by a comprehension: rows [argmax(reward[:, k]) for k in range(n_sensors)],
+                # columns arange(n_sensors)
+                inner = a0
+                while isinstance(inner, ast.Call) and call_name(inner) in ("asarray", "array", "list", "tuple") and inner.args:
+                    inner = inner.args[0]
+                if isinstance(inner, (ast.ListComp, ast.GeneratorExp)) and len(inner.generators) == 1 and not inner.generators[0].ifs and isinstance(inner.generators[0].target, ast.Name):
+                    k = inner.generators[0].target.id
+                    n_sens = f"{rw}.shape[1]"
+                    if unparse(inner.elt) == f"argmax({rw}[:, {k}])" and unparse(inner.generators[0].iter) == f"range({n_sens})" and unparse(a1) == f"arange({n_sens})" and unparse(s.value) == "True":
+                        ok = True
         if ok:
             r.ok(m.qualname, "vectorised argmax over each sensor column (one target per sensor)", m.loc())
         else:
@@ -531,10 +541,36 @@ def rule_r5(chk, p, t):
         lp = loops[0]
         var = lp.target.id
         mm = nm.params[1]
-        ifs = [n for n in ast.walk(lp) if isinstance(n, ast.If)]
         aug = [n for n in ast.walk(lp) if isinstance(n, ast.AugAssign) and isinstance(n.op, ast.Div)]
         sl = f"{mm}[..., {var}]"
-        ok = len(ifs) == 1 and unparse(ifs[0].test) == f"{sl}.max() > 0.0" and len(aug) == 1 and unparse(aug[0].target) == sl and unparse(aug[0].value) == f"{sl}.max()" and unparse(lp.iter) == "range(len(self.metrics))"
+        # locals of the loop body: a view of the slice (`col = m[..., k]`, numpy basic indexing of the documented
+        # 2-D+ metric matrix: an in-place division of the view divides the slice) or its maximum (`top = col.max()`)
+        import copy
+
+        local = {}
+        for n in ast.walk(lp):
+            if isinstance(n, ast.Assign) and len(n.targets) == 1 and isinstance(n.targets[0], ast.Name):
+                local.setdefault(n.targets[0].id, []).append(n.value)
+        local = {k: v[0] for k, v in local.items() if len(v) == 1 and k != var}
+
+        def norm(e):
+            class S(ast.NodeTransformer):
+                def visit_Name(self, n):
+                    if n.id in local:
+                        return self.visit(copy.deepcopy(local[n.id]))
+                    return n
+
+            return unparse(S().visit(copy.deepcopy(e)))
+
+        from rsa.cfg import CFG
+
+        cfg = CFG(nm.node)
+        ok = len(aug) == 1 and norm(aug[0].target) == sl and norm(aug[0].value) == f"{sl}.max()" and unparse(lp.iter) == "range(len(self.metrics))"
+        if ok:
+            nd = next((n for n in cfg.nodes if n.ast is aug[0]), None)
+            conds = [(cfg.nodes[cid], lab) for cid, lab in cfg.control_conditions(nd.id)] if nd is not None else []
+            conds = [(c, lab) for c, lab in conds if c.kind == "cond"]
+            ok = len(conds) == 1 and conds[0][1] is True and norm(conds[0][0].ast) in (f"{sl}.max() > 0.0", f"{sl}.max() > 0", f"0.0 < {sl}.max()", f"0 < {sl}.max()")
         rets = [n for n in walk_no_nested(nm.node) if isinstance(n, ast.Return)]
         ok = ok and rets and unparse(rets[0].value) == mm
         if ok:
